@@ -33,8 +33,12 @@ MANIFEST = dict(
          "precondition pre_opb returns, stays well-formed and leaves a valid order), for remove_nodes_connections and "
          "remove_previous_connections (C37_wellformed_remove_nodes_connections_succeeds, "
          "C37_wellformed_remove_previous_connections_succeeds) and for histories mixing the three "
-         "(C37_wellformed_removal_history_never_raises); for remove_successors_nodes it is checked by the executable "
-         "reference reading only (see design/C37.md).",
+         "(C37_wellformed_removal_history_never_raises); for remove_successors_nodes the analogous statement is "
+         "machine-checked to be false (C37_wellformed_remove_successors_nodes_refuted: the call returns and keeps a "
+         "valid order, but leaves a dangling connection of an already popped follower; same state on the "
+         "implementation) and proved only for a node without successors "
+         "(C37_wellformed_remove_successors_nodes_leaf_partial); otherwise the executable reference reading checks it "
+         "(see design/C37.md).",
     note="Trusted: Coq kernel + vm_compute; hand-written model Model/Graph.v (nodes identified by name; a raising call "
          "ends the history); correspondence is differential testing.",
     technique="Coq proof (invariant over operation histories; soundness of the pass-wise sort from arbitrary state) + "
